@@ -1275,4 +1275,219 @@ func specTailIs(nb []byte, n int, p *Packet) bool {
 //@   ensures specAccOK(a) && a.state == 0 && len(a.packets) == 0 && len(specAccBytes(a)) == 0
 //@   modifies *a, *a.buf
 
+
+// ---------------------------------------------------------------- C18: writer adapters
+
+// specPW is the packet writer model C18 quantifies over: it records every packet it is handed
+// (log, concatenated) and fails at a chosen call with a chosen count and error; every other call
+// accepts the whole packet, as the PacketWriter rules require of a call that returns no error.
+type specPW struct {
+	log    []byte
+	n      int   // calls so far
+	failAt int   // index of the failing call; negative: none
+	failN  int   // count reported by the failing call, 0..188
+	failE  error // its error, non-nil
+	closed bool
+}
+
+func (w *specPW) WritePacket(p *Packet) (int, error) {
+	w.log = append(w.log, p[:]...)
+	k := w.n
+	w.n++
+	if k == w.failAt {
+		return w.failN, w.failE
+	}
+	return PacketSize, nil
+}
+
+func (w *specPW) Close() error {
+	w.closed = true
+	return nil
+}
+
+func specPWOf(pw *packetWriter) *specPW {
+	m, _ := pw.PacketWriteCloser.(*specPW)
+	return m
+}
+
+func specPWOK(w *specPW) bool {
+	return w != nil && 0 <= w.n && 0 <= w.failN && w.failN <= 188 && w.failE != nil
+}
+
+// specLogIs(log, base, n, src, m): log == base[:n] ++ src[:m]
+func specLogIs(log []byte, base []byte, n int, src []byte, m int) bool {
+	return len(log) == n+m &&
+		verifForall(0, n, func(k int) bool { return log[k] == base[k] }) &&
+		verifForall(0, m, func(j int) bool { return log[n+j] == src[j] })
+}
+
+// specBodyIs(log, n, src, m): log[n:n+m] == src[:m]
+func specBodyIs(log []byte, n int, src []byte, m int) bool {
+	return verifForall(0, m, func(j int) bool { return log[n+j] == src[j] })
+}
+
+// specHit: the writer's failing call happened at or after call number n0.
+func specHit(w *specPW, n0 int) bool { return w.failAt >= n0 && w.failAt < w.n }
+
+// specDelivered(total, w): how many of `total` whole packets the writer w gets to see from a
+// call that starts when w has seen w.n calls: all of them, or up to and including the failing one.
+func specDelivered(total int, n int, failAt int) int {
+	if failAt >= n && failAt-n < total {
+		return failAt - n + 1
+	}
+	return total
+}
+
+//@ func (w *specPW) WritePacket(p *Packet) (n int, err error)
+//@   props C18
+//@   requires specPWOK(w) && w.n < 1<<42 && p != nil && verifSeparate(w.log, p)
+//@   ensures specPWOK(w) && w.n == old(w.n)+1 && w.failAt == old(w.failAt) && w.failN == old(w.failN) && w.failE == old(w.failE) && w.closed == old(w.closed)
+//@   ensures len(w.log) == old(len(w.log))+188
+//@   ensures specPrefixIs(w.log, old(verifSnap(w.log)), old(len(w.log)))
+//@   ensures forall j in 0..188 :: w.log[old(len(w.log))+j] == p[j]
+//@   ensures old(w.n) == w.failAt ==> n == w.failN && err == w.failE
+//@   ensures old(w.n) != w.failAt ==> n == 188 && err == nil
+//@   ensures fresh(w.log) || !verifSeparate(w.log, old(w.log))
+//@   modifies *w, w.log[*]
+
+//@ func (pw *packetWriter) Write(p []byte) (n int, err error)
+//@   props C18
+//@   requires pw != nil && specPWOK(specPWOf(pw)) && specPWOf(pw).n < 1<<40 && verifSeparate(specPWOf(pw).log, p) && verifSeparate(specPWOf(pw).log, &pw.pkt) && verifSeparate(p, &pw.pkt)
+//@   ensures len(p)%188 != 0 ==> n == 0 && err == gots.ErrInvalidPacketLength && len(specPWOf(pw).log) == old(len(specPWOf(pw).log)) && specPWOf(pw).n == old(specPWOf(pw).n)
+//@   ensures len(p)%188 == 0 ==> specPWOf(pw).n >= old(specPWOf(pw).n)
+//@   ensures len(p)%188 == 0 && !specHit(specPWOf(pw), old(specPWOf(pw).n)) ==> 188*(specPWOf(pw).n-old(specPWOf(pw).n)) == len(p) && n == len(p) && err == nil
+//@   ensures len(p)%188 == 0 && specHit(specPWOf(pw), old(specPWOf(pw).n)) ==> specPWOf(pw).n == specPWOf(pw).failAt+1 && err == specPWOf(pw).failE
+//@   ensures len(p)%188 == 0 && specHit(specPWOf(pw), old(specPWOf(pw).n)) ==> n == 188*(specPWOf(pw).failAt-old(specPWOf(pw).n))+specPWOf(pw).failN
+//@   ensures forall j in 0..len(p) :: p[j] == old(verifSnap(p))[j]
+//@   modifies *pw, *(&pw.pkt), *specPWOf(pw), specPWOf(pw).log[*]
+//@   loop 1 (i int, n int)
+//@     invariant pw != nil && specPWOK(specPWOf(pw)) && specPWOf(pw) == old(specPWOf(pw)) && 0 <= i && i <= len(p) && n == i
+//@     invariant specPWOf(pw).n >= old(specPWOf(pw).n) && specPWOf(pw).n <= old(specPWOf(pw).n)+i
+//@     invariant i == 188*(specPWOf(pw).n-old(specPWOf(pw).n))
+//@     invariant !specHit(specPWOf(pw), old(specPWOf(pw).n))
+//@     invariant specPWOf(pw).failAt == old(specPWOf(pw).failAt) && specPWOf(pw).failN == old(specPWOf(pw).failN) && specPWOf(pw).failE == old(specPWOf(pw).failE)
+//@     invariant len(specPWOf(pw).log) == old(len(specPWOf(pw).log))+i
+//@     invariant verifSeparate(specPWOf(pw).log, p) && verifSeparate(specPWOf(pw).log, &pw.pkt)
+//@     invariant fresh(specPWOf(pw).log) || !verifSeparate(specPWOf(pw).log, old(specPWOf(pw).log))
+//@     invariant forall j in 0..len(p) :: p[j] == old(verifSnap(p))[j]
+//@     decreases len(p) - i
+
+
+// specReader is the reader model C18 quantifies over: the bytes s still to come from position
+// pos and the error endErr (io.EOF or a failure of the reader's own) reported once they are used
+// up. How the reader fragments s across Read calls is left open: ReadFrom goes through
+// io.ReadFull, whose effect on the model is verifReadFull (io.ReadAtLeast keeps calling Read
+// until the buffer is full or Read fails).
+type specReader struct {
+	s      []byte
+	pos    int
+	endErr error
+}
+
+func (m *specReader) Read(p []byte) (int, error) {
+	if m.pos >= len(m.s) {
+		return 0, m.endErr
+	}
+	n := copy(p, m.s[m.pos:])
+	m.pos += n
+	return n, nil
+}
+
+func (m *specReader) verifReadFull(buf []byte) (int, error) {
+	if len(m.s)-m.pos >= len(buf) {
+		copy(buf, m.s[m.pos:m.pos+len(buf)])
+		m.pos += len(buf)
+		return len(buf), nil
+	}
+	n := copy(buf, m.s[m.pos:])
+	m.pos += n
+	if m.endErr != io.EOF {
+		return n, m.endErr
+	}
+	if n == 0 {
+		return 0, io.EOF
+	}
+	return n, io.ErrUnexpectedEOF
+}
+
+func specReaderOf(r io.Reader) *specReader {
+	m, _ := r.(*specReader)
+	return m
+}
+
+func specReaderOK(m *specReader) bool {
+	return m != nil && 0 <= m.pos && m.pos <= len(m.s) && m.endErr != nil
+}
+
+//@ func (m *specReader) verifReadFull(buf []byte) (n int, err error)
+//@   props C18
+//@   requires specReaderOK(m) && len(buf) == 188 && verifSeparate(m.s, buf)
+//@   ensures specReaderOK(m) && m.endErr == old(m.endErr) && len(m.s) == old(len(m.s))
+//@   ensures old(len(m.s)-m.pos) >= 188 ==> n == 188 && err == nil && m.pos == old(m.pos)+188
+//@   ensures old(len(m.s)-m.pos) < 188 ==> n == old(len(m.s)-m.pos) && m.pos == len(m.s) && err != nil
+//@   ensures old(len(m.s)-m.pos) < 188 && m.endErr != io.EOF ==> err == m.endErr
+//@   ensures old(len(m.s)-m.pos) < 188 && m.endErr == io.EOF && n == 0 ==> err == io.EOF
+//@   ensures old(len(m.s)-m.pos) < 188 && m.endErr == io.EOF && n > 0 ==> err == io.ErrUnexpectedEOF
+//@   ensures forall j in 0..n :: buf[j] == m.s[old(m.pos)+j]
+//@   modifies m.pos, buf[..]
+
+//@ func (pw *packetWriter) ReadFrom(r io.Reader) (n int64, err error)
+//@   props C18
+//@   requires pw != nil && specPWOK(specPWOf(pw)) && specPWOf(pw).n < 1<<40 && specReaderOK(specReaderOf(r)) && len(specReaderOf(r).s) < 1<<40
+//@   requires verifSeparate(specPWOf(pw).log, &pw.pkt) && verifSeparate(specReaderOf(r).s, &pw.pkt) && verifSeparate(specPWOf(pw).log, specReaderOf(r).s)
+//@   ensures specPWOf(pw).n >= old(specPWOf(pw).n)
+//@   ensures !specHit(specPWOf(pw), old(specPWOf(pw).n)) ==> n == int64(188*(specPWOf(pw).n-old(specPWOf(pw).n)))
+//@   ensures !specHit(specPWOf(pw), old(specPWOf(pw).n)) ==> int64(len(specReaderOf(r).s)-old(specReaderOf(r).pos))-n < 188 && n <= int64(len(specReaderOf(r).s)-old(specReaderOf(r).pos))
+//@   ensures !specHit(specPWOf(pw), old(specPWOf(pw).n)) ==> 188*(specPWOf(pw).n-old(specPWOf(pw).n)) <= len(specReaderOf(r).s)-old(specReaderOf(r).pos)
+//@   ensures !specHit(specPWOf(pw), old(specPWOf(pw).n)) && specReaderOf(r).endErr != io.EOF && specReaderOf(r).endErr != io.ErrUnexpectedEOF ==> err == specReaderOf(r).endErr
+//@   ensures !specHit(specPWOf(pw), old(specPWOf(pw).n)) && specReaderOf(r).endErr == io.ErrUnexpectedEOF && int64(len(specReaderOf(r).s)-old(specReaderOf(r).pos)) == n ==> err == io.ErrUnexpectedEOF
+//@   ensures !specHit(specPWOf(pw), old(specPWOf(pw).n)) && specReaderOf(r).endErr == io.ErrUnexpectedEOF && int64(len(specReaderOf(r).s)-old(specReaderOf(r).pos)) != n ==> err == gots.ErrInvalidPacketLength
+//@   ensures !specHit(specPWOf(pw), old(specPWOf(pw).n)) && specReaderOf(r).endErr == io.EOF && int64(len(specReaderOf(r).s)-old(specReaderOf(r).pos)) == n ==> err == nil
+//@   ensures !specHit(specPWOf(pw), old(specPWOf(pw).n)) && specReaderOf(r).endErr == io.EOF && int64(len(specReaderOf(r).s)-old(specReaderOf(r).pos)) != n ==> err == gots.ErrInvalidPacketLength
+//@   ensures specHit(specPWOf(pw), old(specPWOf(pw).n)) ==> specPWOf(pw).n == specPWOf(pw).failAt+1 && err == specPWOf(pw).failE && n == int64(188*(specPWOf(pw).failAt-old(specPWOf(pw).n))+specPWOf(pw).failN)
+//@   modifies *pw, *(&pw.pkt), *specPWOf(pw), specPWOf(pw).log[*], specReaderOf(r).pos
+//@   loop 1 (n int64, err error)
+//@     invariant pw != nil && specPWOK(specPWOf(pw)) && specPWOf(pw) == old(specPWOf(pw)) && specReaderOK(specReaderOf(r)) && err == nil
+//@     invariant specReaderOf(r).endErr == old(specReaderOf(r).endErr) && len(specReaderOf(r).s) == old(len(specReaderOf(r).s))
+//@     invariant specPWOf(pw).n >= old(specPWOf(pw).n) && specPWOf(pw).n <= old(specPWOf(pw).n)+(specReaderOf(r).pos-old(specReaderOf(r).pos))
+//@     invariant specReaderOf(r).pos-old(specReaderOf(r).pos) == 188*(specPWOf(pw).n-old(specPWOf(pw).n)) && n == int64(specReaderOf(r).pos-old(specReaderOf(r).pos))
+//@     invariant specReaderOf(r).pos >= old(specReaderOf(r).pos)
+//@     invariant !specHit(specPWOf(pw), old(specPWOf(pw).n))
+//@     invariant specPWOf(pw).failAt == old(specPWOf(pw).failAt) && specPWOf(pw).failN == old(specPWOf(pw).failN) && specPWOf(pw).failE == old(specPWOf(pw).failE)
+//@     invariant verifSeparate(specPWOf(pw).log, &pw.pkt) && verifSeparate(specPWOf(pw).log, specReaderOf(r).s)
+//@     invariant verifSeparate(specReaderOf(r).s, &pw.pkt) && !verifSeparate(specReaderOf(r).s, old(specReaderOf(r).s))
+//@     invariant fresh(specPWOf(pw).log) || !verifSeparate(specPWOf(pw).log, old(specPWOf(pw).log))
+//@     decreases len(specReaderOf(r).s) - specReaderOf(r).pos
+
+
+func specPWofWC(x WriteCloser) *packetWriter {
+	p, _ := x.(*packetWriter)
+	return p
+}
+
+func specPWofW(x Writer) *packetWriter {
+	p, _ := x.(*packetWriter)
+	return p
+}
+
+func specNopInner(x PacketWriteCloser) PacketWriter {
+	n, _ := x.(nopCloser)
+	return n.PacketWriter
+}
+
+//@ func IOWriteCloser(w PacketWriteCloser) WriteCloser
+//@   props C18
+//@   ensures fresh(specPWofWC(result)) && specPWofWC(result) != nil && specPWofWC(result).PacketWriteCloser == w
+//@   modifies nothing
+
+//@ func NopCloser(r PacketWriter) PacketWriteCloser
+//@   props C18
+//@   ensures specNopInner(result) == r
+//@   modifies nothing
+
+//@ func IOWriter(w PacketWriter) Writer
+//@   props C18
+//@   ensures fresh(specPWofW(result)) && specPWofW(result) != nil && specNopInner(specPWofW(result).PacketWriteCloser) == w
+//@   modifies nothing
+
 var _ = gots.ErrNoPayload
